@@ -185,15 +185,22 @@ pub fn execute(head: &str, src: Source<'_>, faults: &Faults, layout_seed: u64, o
         }
         Source::Generate { kn, hist_seed } => {
             let mut rng = Rng(hist_seed);
+            let mut rng2 = Rng(mix(hist_seed, 0x7570, 1));
             let mut g = GenState::default();
             if kn.shape != 0 {
                 for op in gen::structured(&mut rng, kn, &mut g) {
-                    run_op(&op, &mut issued);
+                    for op in gen::two_phase(op, kn, &mut rng2) {
+                        run_op(&op, &mut issued);
+                    }
                 }
             }
             for _ in 0..kn.walk_len {
                 match gen::next_op(&mut rng, kn, &mut g) {
-                    Some(op) => run_op(&op, &mut issued),
+                    Some(op) => {
+                        for op in gen::two_phase(op, kn, &mut rng2) {
+                            run_op(&op, &mut issued);
+                        }
+                    }
                     None => break,
                 }
             }
@@ -1056,6 +1063,62 @@ fn scale_cmd(a: &Args) -> i32 {
     0
 }
 
+fn after_big_cmd(a: &Args) -> i32 {
+    let shape = a.get("--shape").unwrap_or("ring").to_string();
+    let n = a.num("--n", 100000) as usize;
+    let seed = a.num("--seed", 1);
+    shared::init();
+    alloc::reset(1, false);
+    let th = std::thread::Builder::new().stack_size(256 * 1024).spawn(move || alloc::sut(|| scale::after_big(&shape, n, seed)));
+    let (before, after, big) = match th.map(|h| h.join()) {
+        Ok(Ok(o)) => o,
+        _ => {
+            out("{\"type\":\"after-big\",\"error\":\"panic\"}\n");
+            return 1;
+        }
+    };
+    let f = |v: &Vec<scale::SmallCost>| v.iter().map(|c| format!("{{\"bytes\":{},\"allocs\":{},\"pops\":{},\"scanned\":{},\"destroyed\":{}}}", c.bytes, c.allocs, c.pops, c.scanned, c.destroyed)).collect::<Vec<_>>().join(",");
+    out(&format!("{{\"type\":\"after-big\",\"big_n\":{},\"big_destroyed\":{},\"before\":[{}],\"after\":[{}]}}\n", big.n, big.destroyed, f(&before), f(&after)));
+    0
+}
+
+fn huge_cmd(a: &Args) -> i32 {
+    let max_pow = a.num("--max-pow", 24) as u32;
+    shared::init();
+    alloc::reset(1, false);
+    let mut parts = vec![];
+    for pow in [8u32, 16, 24, 31, 32, 33] {
+        if pow <= max_pow {
+            let o = alloc::sut(|| scale::huge_count(pow));
+            parts.push(format!("{{\"pow\":{},\"count_errors\":{},\"destroyed_while_held\":{},\"ms\":{}}}", o.pow, o.count_errors, o.destroyed_while_held, o.ms));
+        }
+    }
+    out(&format!("{{\"type\":\"huge\",\"max_pow\":{max_pow},\"cases\":[{}]}}\n", parts.join(",")));
+    0
+}
+
+fn nested_cmd(a: &Args) -> i32 {
+    let sizes: Vec<usize> = a.get("--sizes").unwrap_or("2,600").split(',').filter_map(|s| s.parse().ok()).collect();
+    let tls = a.get("--tls").map(|s| s.to_string());
+    shared::init();
+    alloc::reset(1, false);
+    let o = match tls.as_deref() {
+        Some(order) => scale::tls_exit(order == "early"),
+        None => {
+            let th = std::thread::Builder::new().stack_size(256 * 1024).spawn(move || alloc::sut(|| scale::nested(&sizes)));
+            match th.map(|h| h.join()) {
+                Ok(Ok(o)) => o,
+                _ => {
+                    out("{\"type\":\"nested\",\"error\":\"panic\"}\n");
+                    return 1;
+                }
+            }
+        }
+    };
+    out(&format!("{{\"type\":\"nested\",\"n\":{},\"destroyed\":{},\"double\":{},\"leaked_blocks\":{}}}\n", o.n, o.destroyed, o.double, o.leaked_blocks));
+    0
+}
+
 fn soak_cmd(a: &Args) -> i32 {
     let max_pow = a.num("--max-pow", 24) as u32;
     shared::init();
@@ -1155,6 +1218,9 @@ fn main() {
         "replay" => replay(&a),
         "scale" => scale_cmd(&a),
         "soak" => soak_cmd(&a),
+        "nested" => nested_cmd(&a),
+        "huge" => huge_cmd(&a),
+        "after-big" => after_big_cmd(&a),
         "dump" => dump(&a),
         "replay-many" => replay_many(&a),
         _ => die("usage: cactus-sim batch|replay ..."),
